@@ -401,12 +401,13 @@ class InternationalizationExtension(Extension):
 
         plural = None
         have_plural = False
-        referenced = set()
+        # ordered, so that compilation does not depend on the hash seed
+        referenced: dict[str, None] = {}
 
         # now parse until endtrans or pluralize
         singular_names, singular = self._parse_block(parser, True)
         if singular_names:
-            referenced.update(singular_names)
+            referenced.update(dict.fromkeys(singular_names))
             if plural_expr is None:
                 plural_expr = nodes.Name(singular_names[0], "load")
                 num_called_num = singular_names[0] == "num"
@@ -428,7 +429,7 @@ class InternationalizationExtension(Extension):
             parser.stream.expect("block_end")
             plural_names, plural = self._parse_block(parser, False)
             next(parser.stream)
-            referenced.update(plural_names)
+            referenced.update(dict.fromkeys(plural_names))
         else:
             next(parser.stream)
 
